@@ -17,7 +17,7 @@
 use std::borrow::Borrow;
 use std::marker::PhantomData;
 
-pub(crate) const CAP: usize = 4;
+pub const CAP: usize = 4;
 
 fn overflow() -> ! {
     panic!("verif shim capacity exceeded")
@@ -52,8 +52,8 @@ fn any_rotation() -> usize {
 }
 
 // ---------------------------------------------------------------------------
-pub(crate) struct HashMap<K, V, S = ()> {
-    pub(crate) slots: [Option<(K, V)>; CAP],
+pub struct HashMap<K, V, S = ()> {
+    pub slots: [Option<(K, V)>; CAP],
     _s: PhantomData<S>,
 }
 
@@ -82,19 +82,19 @@ impl<K: std::fmt::Debug, V: std::fmt::Debug, S> std::fmt::Debug for HashMap<K, V
 }
 
 impl<K, V, S> HashMap<K, V, S> {
-    pub(crate) fn new() -> Self {
+    pub fn new() -> Self {
         Self::default()
     }
-    pub(crate) fn with_capacity(_n: usize) -> Self {
+    pub fn with_capacity(_n: usize) -> Self {
         Self::default()
     }
-    pub(crate) fn with_hasher(_s: S) -> Self {
+    pub fn with_hasher(_s: S) -> Self {
         Self::default()
     }
-    pub(crate) fn with_capacity_and_hasher(_n: usize, _s: S) -> Self {
+    pub fn with_capacity_and_hasher(_n: usize, _s: S) -> Self {
         Self::default()
     }
-    pub(crate) fn len(&self) -> usize {
+    pub fn len(&self) -> usize {
         let mut n = 0;
         let mut i = 0;
         while i < CAP {
@@ -105,38 +105,38 @@ impl<K, V, S> HashMap<K, V, S> {
         }
         n
     }
-    pub(crate) fn is_empty(&self) -> bool {
+    pub fn is_empty(&self) -> bool {
         self.len() == 0
     }
-    pub(crate) fn clear(&mut self) {
+    pub fn clear(&mut self) {
         let mut i = 0;
         while i < CAP {
             self.slots[i] = None;
             i += 1;
         }
     }
-    pub(crate) fn iter(&self) -> Iter<'_, K, V> {
+    pub fn iter(&self) -> Iter<'_, K, V> {
         Iter { slots: &self.slots, pos: 0, rot: any_rotation() }
     }
-    pub(crate) fn iter_mut(&mut self) -> IterMut<'_, K, V> {
+    pub fn iter_mut(&mut self) -> IterMut<'_, K, V> {
         IterMut { inner: self.slots.iter_mut() }
     }
-    pub(crate) fn keys(&self) -> Keys<'_, K, V> {
+    pub fn keys(&self) -> Keys<'_, K, V> {
         Keys { it: self.iter() }
     }
-    pub(crate) fn values(&self) -> Values<'_, K, V> {
+    pub fn values(&self) -> Values<'_, K, V> {
         Values { it: self.iter() }
     }
-    pub(crate) fn values_mut(&mut self) -> ValuesMut<'_, K, V> {
+    pub fn values_mut(&mut self) -> ValuesMut<'_, K, V> {
         ValuesMut { it: self.iter_mut() }
     }
-    pub(crate) fn into_keys(self) -> impl Iterator<Item = K> {
+    pub fn into_keys(self) -> impl Iterator<Item = K> {
         self.into_iter().map(|(k, _)| k)
     }
-    pub(crate) fn into_values(self) -> impl Iterator<Item = V> {
+    pub fn into_values(self) -> impl Iterator<Item = V> {
         self.into_iter().map(|(_, v)| v)
     }
-    pub(crate) fn retain(&mut self, mut f: impl FnMut(&K, &mut V) -> bool) {
+    pub fn retain(&mut self, mut f: impl FnMut(&K, &mut V) -> bool) {
         let mut i = 0;
         while i < CAP {
             let keep = match &mut self.slots[i] {
@@ -149,13 +149,13 @@ impl<K, V, S> HashMap<K, V, S> {
             i += 1;
         }
     }
-    pub(crate) fn drain(&mut self) -> IntoIter<K, V> {
+    pub fn drain(&mut self) -> IntoIter<K, V> {
         let taken = std::mem::replace(&mut self.slots, [const { None }; CAP]);
         IntoIter { slots: taken, pos: 0, rot: any_rotation() }
     }
-    pub(crate) fn reserve(&mut self, _n: usize) {}
-    pub(crate) fn shrink_to_fit(&mut self) {}
-    pub(crate) fn capacity(&self) -> usize {
+    pub fn reserve(&mut self, _n: usize) {}
+    pub fn shrink_to_fit(&mut self) {}
+    pub fn capacity(&self) -> usize {
         CAP
     }
 }
@@ -176,7 +176,7 @@ impl<K: Eq, V, S> HashMap<K, V, S> {
         }
         None
     }
-    pub(crate) fn insert(&mut self, k: K, v: V) -> Option<V> {
+    pub fn insert(&mut self, k: K, v: V) -> Option<V> {
         match self.find(&k) {
             Some(i) => {
                 let slot = self.slots[i].as_mut().unwrap();
@@ -189,7 +189,7 @@ impl<K: Eq, V, S> HashMap<K, V, S> {
             }
         }
     }
-    pub(crate) fn get<Q: ?Sized + Eq>(&self, k: &Q) -> Option<&V>
+    pub fn get<Q: ?Sized + Eq>(&self, k: &Q) -> Option<&V>
     where
         K: Borrow<Q>,
     {
@@ -198,7 +198,7 @@ impl<K: Eq, V, S> HashMap<K, V, S> {
             None => None,
         }
     }
-    pub(crate) fn get_key_value<Q: ?Sized + Eq>(&self, k: &Q) -> Option<(&K, &V)>
+    pub fn get_key_value<Q: ?Sized + Eq>(&self, k: &Q) -> Option<(&K, &V)>
     where
         K: Borrow<Q>,
     {
@@ -207,7 +207,7 @@ impl<K: Eq, V, S> HashMap<K, V, S> {
             None => None,
         }
     }
-    pub(crate) fn get_mut<Q: ?Sized + Eq>(&mut self, k: &Q) -> Option<&mut V>
+    pub fn get_mut<Q: ?Sized + Eq>(&mut self, k: &Q) -> Option<&mut V>
     where
         K: Borrow<Q>,
     {
@@ -216,13 +216,13 @@ impl<K: Eq, V, S> HashMap<K, V, S> {
             None => None,
         }
     }
-    pub(crate) fn contains_key<Q: ?Sized + Eq>(&self, k: &Q) -> bool
+    pub fn contains_key<Q: ?Sized + Eq>(&self, k: &Q) -> bool
     where
         K: Borrow<Q>,
     {
         self.find(k).is_some()
     }
-    pub(crate) fn remove<Q: ?Sized + Eq>(&mut self, k: &Q) -> Option<V>
+    pub fn remove<Q: ?Sized + Eq>(&mut self, k: &Q) -> Option<V>
     where
         K: Borrow<Q>,
     {
@@ -231,7 +231,7 @@ impl<K: Eq, V, S> HashMap<K, V, S> {
             None => None,
         }
     }
-    pub(crate) fn remove_entry<Q: ?Sized + Eq>(&mut self, k: &Q) -> Option<(K, V)>
+    pub fn remove_entry<Q: ?Sized + Eq>(&mut self, k: &Q) -> Option<(K, V)>
     where
         K: Borrow<Q>,
     {
@@ -240,7 +240,7 @@ impl<K: Eq, V, S> HashMap<K, V, S> {
             None => None,
         }
     }
-    pub(crate) fn entry(&mut self, k: K) -> hash_map::Entry<'_, K, V> {
+    pub fn entry(&mut self, k: K) -> hash_map::Entry<'_, K, V> {
         match self.find(&k) {
             Some(i) => hash_map::Entry::Occupied(hash_map::OccupiedEntry { slot: &mut self.slots[i], key: k }),
             None => {
@@ -296,7 +296,7 @@ impl<K: Eq, V: PartialEq, S> PartialEq for HashMap<K, V, S> {
 }
 impl<K: Eq, V: Eq, S> Eq for HashMap<K, V, S> {}
 
-pub(crate) struct Iter<'a, K, V> {
+pub struct Iter<'a, K, V> {
     slots: &'a [Option<(K, V)>; CAP],
     pos: usize,
     rot: usize,
@@ -319,7 +319,7 @@ impl<'a, K, V> Clone for Iter<'a, K, V> {
         Iter { slots: self.slots, pos: self.pos, rot: self.rot }
     }
 }
-pub(crate) struct IterMut<'a, K, V> {
+pub struct IterMut<'a, K, V> {
     inner: std::slice::IterMut<'a, Option<(K, V)>>,
 }
 impl<'a, K, V> Iterator for IterMut<'a, K, V> {
@@ -334,7 +334,7 @@ impl<'a, K, V> Iterator for IterMut<'a, K, V> {
         }
     }
 }
-pub(crate) struct Keys<'a, K, V> {
+pub struct Keys<'a, K, V> {
     it: Iter<'a, K, V>,
 }
 impl<'a, K, V> Iterator for Keys<'a, K, V> {
@@ -348,7 +348,7 @@ impl<'a, K, V> Clone for Keys<'a, K, V> {
         Keys { it: self.it.clone() }
     }
 }
-pub(crate) struct Values<'a, K, V> {
+pub struct Values<'a, K, V> {
     it: Iter<'a, K, V>,
 }
 impl<'a, K, V> Iterator for Values<'a, K, V> {
@@ -357,7 +357,7 @@ impl<'a, K, V> Iterator for Values<'a, K, V> {
         self.it.next().map(|(_, v)| v)
     }
 }
-pub(crate) struct ValuesMut<'a, K, V> {
+pub struct ValuesMut<'a, K, V> {
     it: IterMut<'a, K, V>,
 }
 impl<'a, K, V> Iterator for ValuesMut<'a, K, V> {
@@ -366,7 +366,7 @@ impl<'a, K, V> Iterator for ValuesMut<'a, K, V> {
         self.it.next().map(|(_, v)| v)
     }
 }
-pub(crate) struct IntoIter<K, V> {
+pub struct IntoIter<K, V> {
     slots: [Option<(K, V)>; CAP],
     pos: usize,
     rot: usize,
@@ -406,47 +406,47 @@ impl<'a, K, V, S> IntoIterator for &'a mut HashMap<K, V, S> {
     }
 }
 
-pub(crate) mod hash_map {
-    pub(crate) use super::{HashMap, IntoIter, Iter, IterMut, Keys, Values, ValuesMut};
+pub mod hash_map {
+    pub use super::{HashMap, IntoIter, Iter, IterMut, Keys, Values, ValuesMut};
 
-    pub(crate) enum Entry<'a, K, V> {
+    pub enum Entry<'a, K, V> {
         Occupied(OccupiedEntry<'a, K, V>),
         Vacant(VacantEntry<'a, K, V>),
     }
-    pub(crate) struct OccupiedEntry<'a, K, V> {
-        pub(super) slot: &'a mut Option<(K, V)>,
-        pub(super) key: K,
+    pub struct OccupiedEntry<'a, K, V> {
+        pub slot: &'a mut Option<(K, V)>,
+        pub key: K,
     }
-    pub(crate) struct VacantEntry<'a, K, V> {
-        pub(super) slot: &'a mut Option<(K, V)>,
-        pub(super) key: K,
+    pub struct VacantEntry<'a, K, V> {
+        pub slot: &'a mut Option<(K, V)>,
+        pub key: K,
     }
     impl<'a, K, V> Entry<'a, K, V> {
-        pub(crate) fn or_insert(self, v: V) -> &'a mut V {
+        pub fn or_insert(self, v: V) -> &'a mut V {
             match self {
                 Entry::Occupied(o) => o.into_mut(),
                 Entry::Vacant(e) => e.insert(v),
             }
         }
-        pub(crate) fn or_insert_with(self, f: impl FnOnce() -> V) -> &'a mut V {
+        pub fn or_insert_with(self, f: impl FnOnce() -> V) -> &'a mut V {
             match self {
                 Entry::Occupied(o) => o.into_mut(),
                 Entry::Vacant(e) => e.insert(f()),
             }
         }
-        pub(crate) fn or_default(self) -> &'a mut V
+        pub fn or_default(self) -> &'a mut V
         where
             V: Default,
         {
             self.or_insert_with(V::default)
         }
-        pub(crate) fn and_modify(mut self, f: impl FnOnce(&mut V)) -> Self {
+        pub fn and_modify(mut self, f: impl FnOnce(&mut V)) -> Self {
             if let Entry::Occupied(o) = &mut self {
                 f(o.get_mut());
             }
             self
         }
-        pub(crate) fn key(&self) -> &K {
+        pub fn key(&self) -> &K {
             match self {
                 Entry::Occupied(o) => o.key(),
                 Entry::Vacant(e) => &e.key,
@@ -454,36 +454,36 @@ pub(crate) mod hash_map {
         }
     }
     impl<'a, K, V> OccupiedEntry<'a, K, V> {
-        pub(crate) fn key(&self) -> &K {
+        pub fn key(&self) -> &K {
             &self.slot.as_ref().unwrap().0
         }
-        pub(crate) fn get(&self) -> &V {
+        pub fn get(&self) -> &V {
             &self.slot.as_ref().unwrap().1
         }
-        pub(crate) fn get_mut(&mut self) -> &mut V {
+        pub fn get_mut(&mut self) -> &mut V {
             &mut self.slot.as_mut().unwrap().1
         }
-        pub(crate) fn into_mut(self) -> &'a mut V {
+        pub fn into_mut(self) -> &'a mut V {
             &mut self.slot.as_mut().unwrap().1
         }
-        pub(crate) fn insert(&mut self, v: V) -> V {
+        pub fn insert(&mut self, v: V) -> V {
             std::mem::replace(self.get_mut(), v)
         }
-        pub(crate) fn remove(self) -> V {
+        pub fn remove(self) -> V {
             self.slot.take().unwrap().1
         }
-        pub(crate) fn remove_entry(self) -> (K, V) {
+        pub fn remove_entry(self) -> (K, V) {
             self.slot.take().unwrap()
         }
     }
     impl<'a, K, V> VacantEntry<'a, K, V> {
-        pub(crate) fn key(&self) -> &K {
+        pub fn key(&self) -> &K {
             &self.key
         }
-        pub(crate) fn into_key(self) -> K {
+        pub fn into_key(self) -> K {
             self.key
         }
-        pub(crate) fn insert(self, v: V) -> &'a mut V {
+        pub fn insert(self, v: V) -> &'a mut V {
             *self.slot = Some((self.key, v));
             &mut self.slot.as_mut().unwrap().1
         }
@@ -491,8 +491,8 @@ pub(crate) mod hash_map {
 }
 
 // ---------------------------------------------------------------------------
-pub(crate) struct HashSet<T, S = ()> {
-    pub(crate) slots: [Option<T>; CAP],
+pub struct HashSet<T, S = ()> {
+    pub slots: [Option<T>; CAP],
     _s: PhantomData<S>,
 }
 
@@ -518,16 +518,16 @@ impl<T, S> std::fmt::Debug for HashSet<T, S> {
     }
 }
 impl<T, S> HashSet<T, S> {
-    pub(crate) fn new() -> Self {
+    pub fn new() -> Self {
         Self::default()
     }
-    pub(crate) fn with_capacity(_n: usize) -> Self {
+    pub fn with_capacity(_n: usize) -> Self {
         Self::default()
     }
-    pub(crate) fn with_hasher(_s: S) -> Self {
+    pub fn with_hasher(_s: S) -> Self {
         Self::default()
     }
-    pub(crate) fn len(&self) -> usize {
+    pub fn len(&self) -> usize {
         let mut n = 0;
         let mut i = 0;
         while i < CAP {
@@ -538,20 +538,20 @@ impl<T, S> HashSet<T, S> {
         }
         n
     }
-    pub(crate) fn is_empty(&self) -> bool {
+    pub fn is_empty(&self) -> bool {
         self.len() == 0
     }
-    pub(crate) fn clear(&mut self) {
+    pub fn clear(&mut self) {
         let mut i = 0;
         while i < CAP {
             self.slots[i] = None;
             i += 1;
         }
     }
-    pub(crate) fn iter(&self) -> SetIter<'_, T> {
+    pub fn iter(&self) -> SetIter<'_, T> {
         SetIter { slots: &self.slots, pos: 0, rot: any_rotation() }
     }
-    pub(crate) fn retain(&mut self, mut f: impl FnMut(&T) -> bool) {
+    pub fn retain(&mut self, mut f: impl FnMut(&T) -> bool) {
         let mut i = 0;
         while i < CAP {
             let keep = match &self.slots[i] {
@@ -564,11 +564,11 @@ impl<T, S> HashSet<T, S> {
             i += 1;
         }
     }
-    pub(crate) fn drain(&mut self) -> SetIntoIter<T> {
+    pub fn drain(&mut self) -> SetIntoIter<T> {
         let taken = std::mem::replace(&mut self.slots, [const { None }; CAP]);
         SetIntoIter { slots: taken, pos: 0, rot: any_rotation() }
     }
-    pub(crate) fn reserve(&mut self, _n: usize) {}
+    pub fn reserve(&mut self, _n: usize) {}
 }
 impl<T: Eq, S> HashSet<T, S> {
     fn find<Q: ?Sized + Eq>(&self, k: &Q) -> Option<usize>
@@ -586,7 +586,7 @@ impl<T: Eq, S> HashSet<T, S> {
         }
         None
     }
-    pub(crate) fn insert(&mut self, x: T) -> bool {
+    pub fn insert(&mut self, x: T) -> bool {
         if self.find(&x).is_some() {
             return false;
         }
@@ -594,7 +594,7 @@ impl<T: Eq, S> HashSet<T, S> {
         self.slots[i] = Some(x);
         true
     }
-    pub(crate) fn replace(&mut self, x: T) -> Option<T> {
+    pub fn replace(&mut self, x: T) -> Option<T> {
         match self.find(&x) {
             Some(i) => self.slots[i].replace(x),
             None => {
@@ -604,13 +604,13 @@ impl<T: Eq, S> HashSet<T, S> {
             }
         }
     }
-    pub(crate) fn contains<Q: ?Sized + Eq>(&self, k: &Q) -> bool
+    pub fn contains<Q: ?Sized + Eq>(&self, k: &Q) -> bool
     where
         T: Borrow<Q>,
     {
         self.find(k).is_some()
     }
-    pub(crate) fn get<Q: ?Sized + Eq>(&self, k: &Q) -> Option<&T>
+    pub fn get<Q: ?Sized + Eq>(&self, k: &Q) -> Option<&T>
     where
         T: Borrow<Q>,
     {
@@ -619,7 +619,7 @@ impl<T: Eq, S> HashSet<T, S> {
             None => None,
         }
     }
-    pub(crate) fn remove<Q: ?Sized + Eq>(&mut self, k: &Q) -> bool
+    pub fn remove<Q: ?Sized + Eq>(&mut self, k: &Q) -> bool
     where
         T: Borrow<Q>,
     {
@@ -631,7 +631,7 @@ impl<T: Eq, S> HashSet<T, S> {
             None => false,
         }
     }
-    pub(crate) fn take<Q: ?Sized + Eq>(&mut self, k: &Q) -> Option<T>
+    pub fn take<Q: ?Sized + Eq>(&mut self, k: &Q) -> Option<T>
     where
         T: Borrow<Q>,
     {
@@ -640,16 +640,16 @@ impl<T: Eq, S> HashSet<T, S> {
             None => None,
         }
     }
-    pub(crate) fn is_subset(&self, o: &HashSet<T, S>) -> bool {
+    pub fn is_subset(&self, o: &HashSet<T, S>) -> bool {
         self.iter().all(|x| o.contains(x))
     }
-    pub(crate) fn difference<'a>(&'a self, o: &'a HashSet<T, S>) -> impl Iterator<Item = &'a T> {
+    pub fn difference<'a>(&'a self, o: &'a HashSet<T, S>) -> impl Iterator<Item = &'a T> {
         self.iter().filter(move |x| !o.contains(*x))
     }
-    pub(crate) fn intersection<'a>(&'a self, o: &'a HashSet<T, S>) -> impl Iterator<Item = &'a T> {
+    pub fn intersection<'a>(&'a self, o: &'a HashSet<T, S>) -> impl Iterator<Item = &'a T> {
         self.iter().filter(move |x| o.contains(*x))
     }
-    pub(crate) fn union<'a>(&'a self, o: &'a HashSet<T, S>) -> impl Iterator<Item = &'a T> {
+    pub fn union<'a>(&'a self, o: &'a HashSet<T, S>) -> impl Iterator<Item = &'a T> {
         self.iter().chain(o.iter().filter(move |x| !self.contains(*x)))
     }
 }
@@ -681,7 +681,7 @@ impl<T: Eq, S> PartialEq for HashSet<T, S> {
 }
 impl<T: Eq, S> Eq for HashSet<T, S> {}
 
-pub(crate) struct SetIter<'a, T> {
+pub struct SetIter<'a, T> {
     slots: &'a [Option<T>; CAP],
     pos: usize,
     rot: usize,
@@ -704,7 +704,7 @@ impl<'a, T> Clone for SetIter<'a, T> {
         SetIter { slots: self.slots, pos: self.pos, rot: self.rot }
     }
 }
-pub(crate) struct SetIntoIter<T> {
+pub struct SetIntoIter<T> {
     slots: [Option<T>; CAP],
     pos: usize,
     rot: usize,
@@ -737,9 +737,168 @@ impl<'a, T, S> IntoIterator for &'a HashSet<T, S> {
     }
 }
 
-pub(crate) mod hash_set {
-    pub(crate) use super::{HashSet, SetIntoIter as IntoIter, SetIter as Iter};
+pub mod hash_set {
+    pub use super::{HashSet, SetIntoIter as IntoIter, SetIter as Iter};
 }
 
-pub(crate) type FnvHashMap<K, V> = HashMap<K, V, ()>;
-pub(crate) type FnvHashSet<T> = HashSet<T, ()>;
+pub type FnvHashMap<K, V> = HashMap<K, V, ()>;
+pub type FnvHashSet<T> = HashSet<T, ()>;
+
+// ---------------------------------------------------------------------------
+// hashlink::LruCache stand-in: bounded map that evicts the least-recently-used
+// entry on insert when full; get/get_mut/insert mark an entry most-recently used;
+// iter() runs from least- to most-recently used (hashlink's order).
+// ASSUMED CONTRACT replaced: hashlink::LruCache implements exactly that.
+pub struct LruCache<K, V> {
+    // slots[0] is the least recently used live entry; entries are kept compact
+    slots: [Option<(K, V)>; CAP],
+    cap: usize,
+}
+
+impl<K, V> std::fmt::Debug for LruCache<K, V> {
+    fn fmt(&self, f: &mut std::fmt::Formatter<'_>) -> std::fmt::Result {
+        f.write_str("LruCache{..}")
+    }
+}
+
+impl<K: Eq, V> LruCache<K, V> {
+    pub fn new(capacity: usize) -> Self {
+        // capacities above CAP behave like CAP for eviction purposes only if a
+        // harness fills the shim completely; that is reported as capacity exceeded
+        LruCache { slots: [const { None }; CAP], cap: capacity }
+    }
+    pub fn len(&self) -> usize {
+        let mut n = 0;
+        while n < CAP && self.slots[n].is_some() {
+            n += 1;
+        }
+        n
+    }
+    pub fn is_empty(&self) -> bool {
+        self.slots[0].is_none()
+    }
+    pub fn capacity(&self) -> usize {
+        self.cap
+    }
+    fn find<Q: ?Sized + Eq>(&self, k: &Q) -> Option<usize>
+    where
+        K: Borrow<Q>,
+    {
+        let mut i = 0;
+        while i < CAP {
+            if let Some((kk, _)) = &self.slots[i] {
+                if kk.borrow() == k {
+                    return Some(i);
+                }
+            }
+            i += 1;
+        }
+        None
+    }
+    /// remove slot i keeping the others compact and in order
+    fn take_at(&mut self, i: usize) -> (K, V) {
+        let e = self.slots[i].take().unwrap();
+        let mut j = i;
+        while j + 1 < CAP {
+            self.slots[j] = self.slots[j + 1].take();
+            j += 1;
+        }
+        e
+    }
+    fn push_mru(&mut self, e: (K, V)) {
+        let n = self.len();
+        if n >= CAP {
+            overflow();
+        }
+        self.slots[n] = Some(e);
+    }
+    pub fn insert(&mut self, k: K, v: V) -> Option<V> {
+        match self.find(&k) {
+            Some(i) => {
+                let (kk, old) = self.take_at(i);
+                self.push_mru((kk, v));
+                Some(old)
+            }
+            None => {
+                if self.len() >= self.cap && self.len() > 0 {
+                    let _ = self.take_at(0); // evict least recently used
+                }
+                self.push_mru((k, v));
+                None
+            }
+        }
+    }
+    pub fn get<Q: ?Sized + Eq>(&mut self, k: &Q) -> Option<&V>
+    where
+        K: Borrow<Q>,
+    {
+        match self.find(k) {
+            Some(i) => {
+                let e = self.take_at(i);
+                self.push_mru(e);
+                let n = self.len();
+                self.slots[n - 1].as_ref().map(|(_, v)| v)
+            }
+            None => None,
+        }
+    }
+    pub fn get_mut<Q: ?Sized + Eq>(&mut self, k: &Q) -> Option<&mut V>
+    where
+        K: Borrow<Q>,
+    {
+        match self.find(k) {
+            Some(i) => {
+                let e = self.take_at(i);
+                self.push_mru(e);
+                let n = self.len();
+                self.slots[n - 1].as_mut().map(|(_, v)| v)
+            }
+            None => None,
+        }
+    }
+    pub fn peek<Q: ?Sized + Eq>(&self, k: &Q) -> Option<&V>
+    where
+        K: Borrow<Q>,
+    {
+        match self.find(k) {
+            Some(i) => self.slots[i].as_ref().map(|(_, v)| v),
+            None => None,
+        }
+    }
+    pub fn contains_key<Q: ?Sized + Eq>(&self, k: &Q) -> bool
+    where
+        K: Borrow<Q>,
+    {
+        self.find(k).is_some()
+    }
+    pub fn remove<Q: ?Sized + Eq>(&mut self, k: &Q) -> Option<V>
+    where
+        K: Borrow<Q>,
+    {
+        match self.find(k) {
+            Some(i) => Some(self.take_at(i).1),
+            None => None,
+        }
+    }
+    pub fn iter(&self) -> LruIter<'_, K, V> {
+        LruIter { slots: &self.slots, pos: 0 }
+    }
+}
+
+pub struct LruIter<'a, K, V> {
+    slots: &'a [Option<(K, V)>; CAP],
+    pos: usize,
+}
+impl<'a, K, V> Iterator for LruIter<'a, K, V> {
+    type Item = (&'a K, &'a V);
+    fn next(&mut self) -> Option<Self::Item> {
+        while self.pos < CAP {
+            let p = self.pos;
+            self.pos += 1;
+            if let Some((k, v)) = &self.slots[p] {
+                return Some((k, v));
+            }
+        }
+        None
+    }
+}
